@@ -100,6 +100,9 @@ MUTANTS = [
     {"id": "c15_shared_regex_state", "prop": "C15", "needs": "a SerDe input.regex script in one parser and any script in another (lexer.state on the global lexer)",
      "edits": [(P, "        self.lexer.state = {\"lexer_state_regex\": regex}\n", "        lex.lexer.state = {\"lexer_state_regex\": regex}\n")]},
     # ---------------------------------------------------------------- C19
+    {"id": "c19_pathlib_dump_swallows_oserror", "prop": "C19", "needs": "an I/O error raised at the os level (pathlib bypasses the module-global open/os seams): the call returns normally without a dump",
+     "edits": [(OC, "    if not os.path.isdir(dump_path):\n        os.makedirs(dump_path, exist_ok=True)\n    with open(\"{}/{}_schema.json\".format(dump_path, table_name), \"w+\") as schema_file:\n        json.dump(data, schema_file, indent=1)",
+                "    from pathlib import Path\n    target_dir = Path(dump_path)\n    target_dir.mkdir(parents=True, exist_ok=True)\n    try:\n        with (target_dir / \"{}_schema.json\".format(table_name)).open(\"w+\") as schema_file:\n            json.dump(data, schema_file, indent=1)\n    except OSError as e:\n        logging.getLogger(__name__).warning(\"dump failed: %s\", e)")]},
     {"id": "c19_encoding_ignored", "prop": "C19", "needs": "a non-UTF-8 input file",
      "edits": [(D, "    with open(file_path, \"r\", encoding=encoding) as df:", "    with open(file_path, \"r\") as df:")]},
     {"id": "c19_settings_dropped", "prop": "C19", "needs": "parser_settings that change the result (normalize_names / silent=False)",
